@@ -258,6 +258,9 @@ func (c *FCGIClient) writePairs(recType uint8, pairs map[string]string) error {
 		if m > maxWrite {
 			// param data size exceed 65535 bytes"
 			vl := maxWrite - 8 - len(k)
+			if vl < 0 {
+				vl = 0 // no room is left for the value
+			}
 			v = v[:vl]
 		}
 		n := encodeSize(b, uint32(len(k)))
